@@ -1042,7 +1042,7 @@ def correspond(ctx):
     ctx.broken('monitor:migration does not return tdset.apply_doc_actions(...)', msg)
   # 1. random action streams through the TableDataSet model
   cases, kept = [], []
-  for _ in range(ctx.n(600, 6000)):
+  for _ in range(ctx.n(400, 6000)):
     before, acts, exc, after = gen_tds_case(ctx.rng)
     try:
       cases.append(apply_case(before, acts, exc, after))
@@ -1055,10 +1055,6 @@ def correspond(ctx):
               sample={'actions': [repr(a) for a in acts][:3], 'raises': type(exc).__name__ if exc else None})
     for k in kinds:
       ctx.bump('tds-action:' + k)
-  bad = ctx.run_cases('tds', IMPORTS, APPLY_CHECK, cases, shard=shard8(cases), extra_defs=POOL.defs_for, case_type=APPLY_TYPE)
-  for i in bad[:5]:
-    ctx.broken('correspondence:TableDataSet model differs from table_data_set.TableDataSet',
-               'actions %r on %r (real: %r)' % (kept[i][1], kept[i][0], kept[i][2]))
   # 2. real migrations on generated documents of every version: driver model + the returned actions replayed
   lcases, runs = [], []
   empty = ({}, {})
@@ -1084,9 +1080,34 @@ def correspond(ctx):
                                                        else 'link:touches-user-tables'))
   if len(runs) < current_version():
     raise core.TieBroken('only %d of the generated documents could be replayed in the model' % len(runs))
+  ctx.log('link: %d documents run and encoded' % len(lcases))
   both = 'fun c => (%s) (fst c) && (%s) (snd c)' % (DRIVER_CHECK, APPLY_CHECK)
-  bad = ctx.run_cases('link', IMPORTS, both, lcases, shard=shard8(lcases), extra_defs=POOL.defs_for,
-                      case_type='(%s) * (%s)' % (DRIVER_TYPE, APPLY_TYPE))
+  # both streams are evaluated by Coq at the same time (two waves of coqc processes)
+  import threading
+  res = {}
+  def wave(key, *args, **kw):
+    try:
+      res[key] = ctx.run_cases(*args, **kw)
+    except Exception as e:
+      res[key] = e
+  th = [threading.Thread(target=wave, args=('tds', 'tds', IMPORTS, APPLY_CHECK, cases),
+                         kwargs=dict(shard=max(1, -(-len(cases) // 4)) if ctx.tier == 'quick' else 500, timeout=900,
+                                     extra_defs=POOL.defs_for, case_type=APPLY_TYPE)),
+        threading.Thread(target=wave, args=('link', 'link', IMPORTS, both, lcases),
+                         kwargs=dict(shard=shard8(lcases) if ctx.tier == 'quick' else 8, timeout=900, extra_defs=POOL.defs_for,
+                                     case_type='(%s) * (%s)' % (DRIVER_TYPE, APPLY_TYPE)))]
+  for t in th:
+    t.start()
+  for t in th:
+    t.join()
+  for key in ('tds', 'link'):
+    if isinstance(res.get(key), Exception):
+      raise res[key]
+  ctx.log('both streams evaluated in Coq')
+  for i in res['tds'][:5]:
+    ctx.broken('correspondence:TableDataSet model differs from table_data_set.TableDataSet',
+               'actions %r on %r (real: %r)' % (kept[i][1], kept[i][0], kept[i][2]))
+  bad = res['link']
   for i in bad[:3]:
     r, d, a = runs[i]
     where = 'document at version %d (metadata_only=%r), migrations run %r' % (
